@@ -327,3 +327,8 @@ Proof.
   unfold args_of. cbn [s_ints]. rewrite vals_push. cbn [vals]. rewrite app_nil_r, map_rev, rev_involutive, map_map.
   erewrite map_ext; [apply map_id|]. intros w. apply N2Z.id.
 Qed.
+
+(* ---------- TraceBuffer.read: the loop over the entries runs while stream.index < header.size ---------- *)
+Lemma tracebuf_guard size idx d mems :
+  evc guard_tracebuf (mkS d (Z.of_N idx) [(L "self.header.size", Z.of_N size)] mems) = Some (idx <? size)%N.
+Proof. cbn. f_equal. lia. Qed.
